@@ -76,6 +76,16 @@ def run(events):
     return out, p
 
 
+def with_stale_start(evs, kind):
+    """prepend the START record of an earlier text of the same kind whose END record was lost."""
+    tid = evs[0].tid
+    if kind == 'lookup':
+        return [E.ev('VFS_LOOKUP', 1, tid=tid, data=B.le(0x5555, 8) + b'/stale/stale/stale/stale/'[:24])] + evs
+    if kind == 'gstring':
+        return [E.ev('TRACE_STRING_GLOBAL', 1, tid=tid, data=B.le(1, 8) + B.le(999, 8) + b'stale-stale-stal')] + evs
+    return evs
+
+
 def with_gaps(evs, gap):
     """insert unrelated same-thread records (undecoded, unknown, decodable NONE, and a complete decodable START/END pair)
     between the chunk records; gap = None | kind."""
@@ -96,7 +106,9 @@ def judge_standalone(kind, L, pattern, gap=None):
     txt = text(L, pattern)
     bad = []
     if kind == 'lookup':
-        evs = with_gaps(lookup_events(0x4142434445464748, txt), gap)
+        evs = with_gaps(lookup_events(0x4142434445464748, txt), gap if gap != 'stale' else None)
+        if gap == 'stale':
+            evs = with_stale_start(evs, 'lookup')
         out, p = run(evs)
         out = [t for t in out if type(t).__name__ not in ('BscGetpid', 'MachWait', 'TraceDataNewthread')]
         lk = [t for t in out if type(t).__name__ == 'VfsLookup']
@@ -108,7 +120,9 @@ def judge_standalone(kind, L, pattern, gap=None):
         if len(lk[0].ktraces) < len(lookup_events(0, txt)):
             bad.append(('lookup-window-incomplete', {'got': len(lk[0].ktraces), 'exp': len(evs)}))
     elif kind == 'gstring':
-        evs = with_gaps(gstring_events(777, txt), gap)
+        evs = with_gaps(gstring_events(777, txt), gap if gap != 'stale' else None)
+        if gap == 'stale':
+            evs = with_stale_start(evs, 'gstring')
         out, p = run(evs)
         out = [t for t in out if type(t).__name__ not in ('BscGetpid', 'MachWait', 'TraceDataNewthread')]
         gs = [t for t in out if type(t).__name__ == 'TraceStringGlobal']
@@ -183,7 +197,7 @@ class C08(Check):
     level = 'model_checking'
     rule = ('texts of every byte length 0..184 x 5 content patterns (ASCII; 2-byte and 3-byte UTF-8 characters placed to '
             'straddle record boundaries; all separators; blanks and dots) chunked kernel-style: (a) stand-alone VFS_LOOKUP, TRACE_STRING_GLOBAL (lengths '
-            '0..184) and THREADNAME / THREADNAME_PREV (0..63) record sequences, bare and with an unrelated same-thread record (undecoded, unknown, decodable NONE, a kernel trace-data record with non-text bytes, a VFS_LOOKUP_DONE record, a complete START/END pair) in every gap between the chunk records - exactly one trace with exactly the text (and '
+            '0..184) and THREADNAME / THREADNAME_PREV (0..63) record sequences, bare and with an unrelated same-thread record (undecoded, unknown, decodable NONE, a kernel trace-data record with non-text bytes, a VFS_LOOKUP_DONE record, a complete START/END pair) in every gap between the chunk records, and preceded by the START record of an earlier text whose END was lost - exactly one trace with exactly the text (and '
             'vnode id / string id), tables hold exactly the announced text; (b) every path-taking BSD decoder (66 names, frozen '
             'slot table) x one lookup of every length x patterns; x k in {0,1,2,3,6} lookups of boundary lengths '
             '{0,1,23,24,25,55,56,57,184} x an unrelated same-thread record (undecoded, unknown, decodable NONE) in every gap. '
@@ -212,7 +226,7 @@ class C08(Check):
                 for pattern in range(NPAT):
                     first = {'lookup': 24, 'gstring': 16}.get(kind, 32)
                     nrec = 1 if L <= first else 1 + -(-(L - first) // 32)
-                    for gap in ((None,) if nrec < 2 else (None, 'K', 'U', 'W', 'T', 'D', 'pair')):
+                    for gap in ((None, 'stale') if nrec < 2 else (None, 'K', 'U', 'W', 'T', 'D', 'pair', 'stale')):
                         try:
                             bad = judge_standalone(kind, L, pattern, gap)
                         except Exception as ex:
